@@ -114,6 +114,29 @@ HARNESSES = [
          cases=[dict(id="h2", defines={"ITER_MAXHDR": 2, "__NO_CTYPE": None}, tier="quick"),
                 dict(id="h3", defines={"ITER_MAXHDR": 3, "__NO_CTYPE": None}, tier="thorough"),
                 dict(id="h2nex0", defines={"ITER_MAXHDR": 2, "NEX": 0, "__NO_CTYPE": None}, tier="quick")]),
+    dict(name="iter_strm", file="iter_strm.c", label="bounded(sparse map entries <= 3)", defines=CT,
+         timeout=900, unwind=5,
+         fp={"get_buffered_data": "env_get_buffered_data", "advance_buffer": "env_advance_buffer",
+             "destroy": "it_destroy", "*": "env_never"},
+         cases=[dict(id="n%d" % n, defines={"NSPARSE": n, "__NO_CTYPE": None}, tier="quick") for n in (0, 1, 2)] +
+               [dict(id="n3", defines={"NSPARSE": 3, "__NO_CTYPE": None}, tier="thorough")]),
+    dict(name="handle_line", file="handle_line.c", label="bounded(tokens <= 9, token bytes <= 5)", defines=CT,
+         include_dirs=["bin/gensquashfs/src"], malloc_fail=True, flags=["--memory-leak-check"],
+         nochecks=["--conversion-check"],   # parse_*(s, -1, ..) idiom, makedev narrowing
+         timeout=900, unwind=10, fp={"callback": ["add_generic", "add_device", "add_file"]},
+         cases=[dict(id="args%d" % n, defines={"NARGS": n, "__NO_CTYPE": None}, tier="quick")
+                for n in (0, 4, 5, 6, 8)] +
+               [dict(id="args%d" % n, defines={"NARGS": n, "__NO_CTYPE": None}, tier="thorough")
+                for n in (1, 7, 9)]),
+    dict(name="sort_decode", file="sort_decode.c", label="bounded(line <= 5 bytes)", defines=CT,
+         include_dirs=["bin/gensquashfs/src"], malloc_fail=True, flags=["--memory-leak-check"],
+         timeout=900, fp={"*": "env_never"},
+         cases=[dict(id="%s_len%d" % (nm, n), defines={"PART": part, "LEN": n, "__NO_CTYPE": None},
+                     unwind=max(n + 3, 17 if part == 2 else 0), tier="quick")
+                for part, nm in ((0, "priority"), (1, "filename"), (2, "flags")) for n in (3, 5)] +
+               [dict(id="%s_len%d" % (nm, 8), defines={"PART": part, "LEN": 8, "__NO_CTYPE": None},
+                     unwind=max(11, 17 if part == 2 else 0), tier="thorough", label="bounded(line <= 8 bytes)")
+                for part, nm in ((0, "priority"), (1, "filename"))]),
     dict(name="read_header", file="read_header.c", label="bounded(header records per call <= 3)",
          defines=CT, unwind=513, malloc_fail=True, timeout=900, weight=7,
          nochecks=["--conversion-check"],
